@@ -5,6 +5,7 @@ All statements quantify over every event list (= every interleaving of handle cl
 starts / completions, `take()`/`close()` polls and future drops), for both builds (`sync = false/true`).
 -/
 import Compio.Lemmas.SharedFd
+import Compio.Gen.SharedFdProto
 
 namespace Compio.Props.C06
 open Compio.SharedFd
@@ -560,5 +561,165 @@ theorem cancel_releases_all (s0 : MultiWait.St) (key : Nat) (fds : List Nat) (hk
 example : keyRefs (reap (cancel (dropFuture (push MultiWait.init 7 [3, 4]) 7) 7 [3, 4]) 7) 7 = 0 := by decide
 
 end MultiWait
+
+/-! ## 5. Tie to the source: constructs regenerated from fd.rs / file.rs / socket/mod.rs (`Gen/SharedFdProto.lean`)
+
+The extractor target `SharedFdProto` reads `impl Drop for SharedFd`, `SharedFd::take` (swap, the statements of the
+`poll_fn` closure in source order), `new_unchecked`, `File::close`, `Socket::close`. The theorems below say that the
+functions the driver executes (`dropTest`, `swapWaits`, `stepPoll`/`pollBody`, `stepClose`, `init`) ARE those
+constructs, for every state — a source change to the constant, the condition, the swap polarity or the order /
+presence of `register` between the two `try_unwrap`s breaks one of them even if no generated case samples it. -/
+
+section Generated
+open Compio.Gen.SharedFdProto
+
+/-- the model function of one statement of the `poll_fn` closure, with the program counter it runs at -/
+def fnOfStep : PollStep → Option (CPc × (St → Nat → St))
+  | .takeSlot => none
+  | .tryUnwrapReturn => some (.try1, tryUnwrap1)
+  | .register => some (.reg, register)
+  | .tryUnwrapOrPark => some (.try2, tryUnwrap2)
+
+/-- run the statements of the closure in the order given; `return Poll::Ready(..)` ends the poll; a statement
+reached at a program counter it is not written for is stuck (`none`) -/
+def interpPoll (c : Nat) : St → List PollStep → Option St
+  | s, [] => some s
+  | s, st :: rest =>
+    match fnOfStep st with
+    | none => interpPoll c s rest
+    | some (pc, f) =>
+      match s.actors[c]? with
+      | some (.closer .doneSome) => some s
+      | some (.closer pc') => if pc' = pc then interpPoll c (f s c) rest else none
+      | _ => none
+
+/-- `new_unchecked` initialises `waits` as the model's `init` does -/
+theorem gen_init_waits (b : Bool) : (init b).waits = initWaits := rfl
+
+/-- the wake test of `Drop for SharedFd` in the model is the generated condition, for every state -/
+theorem gen_dropTest (s : St) : dropTest s = if dropWakes s.count s.waits = true then wake s else s := by
+  unfold dropTest dropWakes
+  by_cases h1 : s.count = 2 <;> by_cases h2 : s.waits = true <;> simp [h1, h2]
+
+/-- hence for every history: a whole `drop` of a live handle / op wakes exactly when the generated condition holds in
+the state it is taken in, and then decrements -/
+theorem gen_drop_step (b : Bool) (evs : List Ev) (s s' : St) (x : Nat) (_h : run (init b) evs = some s)
+    (hd : step s (.drop x) = some s') :
+    s' = decRef (setRole (if dropWakes s.count s.waits = true then wake s else s) x .gone) := by
+  simp only [step, stepDrop] at hd
+  rw [← gen_dropTest]
+  split at hd <;> simp_all
+
+/-- `waits.swap(v)` and the branch taken on its result, from the generated constants -/
+theorem gen_swapWaits (s : St) (c : Nat) :
+    swapWaits s c =
+      if s.waits = takeWinsWhenSwapReturned
+      then setRole { s with waits := takeSwapStores, winner := some c } c (.closer .try1)
+      else setRole { s with waits := takeSwapStores } c (.closer .losing) := by
+  unfold swapWaits takeWinsWhenSwapReturned takeSwapStores
+  cases s with
+  | mk sync actors count waits slot woken wakes released delivered winner rawDecs slotW nextW parkedW wokenW wakeLog =>
+    cases waits <;> simp [setRole]
+
+/-- a re-poll of a parked closer (the event the driver executes, any build) is the generated statement list run
+from the top of the closure -/
+theorem gen_poll_parked (s : St) (c : Nat) (hc : s.parked c) :
+    step s (.poll c) = interpPoll c (beginPoll s c) takePoll := by
+  unfold St.parked at hc
+  have h1 : (s.actors.set c (Role.closer .try1))[c]? = some (.closer .try1) := get_set_self _ _ _ _ hc
+  have h2 : (s.actors.set c (Role.closer .reg))[c]? = some (.closer .reg) := get_set_self _ _ _ _ hc
+  have h3 : (s.actors.set c (Role.closer .try2))[c]? = some (.closer .try2) := get_set_self _ _ _ _ hc
+  have h4 : (s.actors.set c (Role.closer .doneSome))[c]? = some (.closer .doneSome) := get_set_self _ _ _ _ hc
+  have h5 : (s.actors.set c (Role.closer .parked))[c]? = some (.closer .parked) := get_set_self _ _ _ _ hc
+  by_cases hcnt : s.count = 1
+  · simp [step, stepPoll, hc, takePoll, interpPoll, fnOfStep, beginPoll, clearWoken, pollBody, tryUnwrap1, hcnt, h1, h4,
+      setRole, List.set_set, deliver]
+  · simp [step, stepPoll, hc, takePoll, interpPoll, fnOfStep, beginPoll, clearWoken, pollBody, tryUnwrap1, tryUnwrap2,
+      register, hcnt, h1, h2, h3, h5, setRole, List.set_set]
+
+/-- a first poll (of a `take()` or a `close()` future) is the generated swap, then `None` for the loser or the
+generated statement list for the winner -/
+theorem gen_poll_first (s : St) (c : Nat)
+    (hc : s.actors[c]? = some (.closer .created) ∨ s.actors[c]? = some (.closer .wrapped)) :
+    step s (.poll c) =
+      if s.waits = takeWinsWhenSwapReturned then interpPoll c (swapWaits s c) takePoll
+      else some (loseNone (swapWaits s c) c) := by
+  have hx : ∃ r0, s.actors[c]? = some r0 := by rcases hc with h | h <;> exact ⟨_, h⟩
+  obtain ⟨r0, hr0⟩ := hx
+  have h1 : (s.actors.set c (Role.closer .try1))[c]? = some (.closer .try1) := get_set_self _ _ _ _ hr0
+  have h2 : (s.actors.set c (Role.closer .reg))[c]? = some (.closer .reg) := get_set_self _ _ _ _ hr0
+  have h3 : (s.actors.set c (Role.closer .try2))[c]? = some (.closer .try2) := get_set_self _ _ _ _ hr0
+  have h4 : (s.actors.set c (Role.closer .doneSome))[c]? = some (.closer .doneSome) := get_set_self _ _ _ _ hr0
+  have h5 : (s.actors.set c (Role.closer .parked))[c]? = some (.closer .parked) := get_set_self _ _ _ _ hr0
+  unfold takeWinsWhenSwapReturned
+  by_cases hw : s.waits = true
+  · rcases hc with hc | hc <;>
+      simp [step, stepPoll, hc, hw, firstPoll, swapWaits, loseNone, setRole, List.set_set]
+  · have hw' : s.waits = false := by simpa using hw
+    by_cases hcnt : s.count = 1
+    · rcases hc with hc | hc <;>
+        simp [step, stepPoll, hc, hw', hcnt, firstPoll, swapWaits, pollBody, takePoll, interpPoll, fnOfStep,
+          tryUnwrap1, h1, h4, setRole, List.set_set, deliver]
+    · rcases hc with hc | hc <;>
+        simp [step, stepPoll, hc, hw', hcnt, firstPoll, swapWaits, pollBody, takePoll, interpPoll, fnOfStep,
+          tryUnwrap1, tryUnwrap2, register, h1, h2, h3, h5, setRole, List.set_set]
+
+/-- program counter a `close(self)` future starts at, by the way the handle is captured -/
+def pcOfCapture : Capture → CPc
+  | .manuallyDrop => .wrapped
+
+/-- `File::close` / `Socket::close` as generated: the handle becomes a closer whose future, dropped before its first
+poll, forgets the reference (count, released unchanged; nobody is woken) — the shape behind finding F8c -/
+theorem gen_close_capture (s s' s'' : St) (h : Nat) (h1 : step s (.close h) = some s')
+    (h2 : step s' (.dropFut h) = some s'') :
+    s'.actors[h]? = some (.closer (pcOfCapture fileClose)) ∧
+    s'.actors[h]? = some (.closer (pcOfCapture socketClose)) ∧
+    s''.actors[h]? = some (.closer .leaked) ∧ s''.count = s.count ∧ s''.released = s.released ∧
+    s''.wakes = s.wakes := by
+  simp only [step, stepClose] at h1
+  cases hx : s.actors[h]? with
+  | none => simp [hx] at h1
+  | some r =>
+    have e1 : (s.actors.set h (Role.closer .wrapped))[h]? = some (.closer .wrapped) := get_set_self _ _ _ _ hx
+    have e2 : (s.actors.set h (Role.closer .leaked))[h]? = some (.closer .leaked) := get_set_self _ _ _ _ hx
+    rw [hx] at h1
+    split at h1 <;> try (simp at h1)
+    subst h1
+    simp only [step, stepDropFut, setRole, e1] at h2
+    simp at h2
+    subst h2
+    simp [fileClose, socketClose, pcOfCapture, setRole, e1, e2, List.set_set]
+
+/-! non-vacuity: the generated list really runs (parks at count 2, completes at count 1) -/
+example : ∃ s, run (init false) [.clone 0, .take 0, .poll 0, .drop 1] = some s ∧ s.parked 0 ∧
+    step s (.poll 0) = interpPoll 0 (beginPoll s 0) takePoll ∧
+    (∃ s', interpPoll 0 (beginPoll s 0) takePoll = some s' ∧ s'.delivered = 1) := by
+  refine ⟨_, rfl, rfl, rfl, _, rfl, rfl⟩
+
+example : ∃ s s', run (init true) [.clone 0, .close 0] = some s ∧ step s (.poll 0) = some s' ∧
+    interpPoll 0 (swapWaits s 0) takePoll = some s' ∧ s'.parked 0 ∧ s'.slot = some 0 := by
+  refine ⟨_, _, rfl, rfl, rfl, rfl, rfl⟩
+
+example : dropWakes 2 true = true ∧ dropWakes 3 true = false ∧ dropWakes 2 false = false := by decide
+
+end Generated
+
+/-- `compio-process` `child_wait` (linux.rs): `fd.clone()` goes into a `PollOnce`, the op is awaited to completion, then
+`fd.take().await.expect("cannot retrieve the child back")`. In every state in which the handle is the only owner and no
+closer has waited before, `take` followed by its FIRST poll hands the descriptor out (never `None`, never `Pending`). -/
+theorem sole_handle_take_completes_first_poll (s : St) (h : Nat) (hh : s.actors[h]? = some (.handle .live))
+    (hc : s.count = 1) (hw : s.waits = false) :
+    ∃ s', run s [.take h, .poll h] = some s' ∧ s'.actors[h]? = some (.closer .doneSome) ∧
+      s'.delivered = s.delivered + 1 ∧ s'.released = s.released + 1 ∧ s'.count = 0 ∧ s'.rawDecs = s.rawDecs := by
+  have e1 : (s.actors.set h (Role.closer .created))[h]? = some (.closer .created) := get_set_self _ _ _ _ hh
+  have e2 : (s.actors.set h (Role.closer .doneSome))[h]? = some (.closer .doneSome) := get_set_self _ _ _ _ hh
+  refine ⟨deliver (setRole { (setRole s h (.closer .created)) with waits := true, winner := some h } h
+    (.closer .doneSome)), ?_, ?_⟩
+  · simp [run, step, stepTake, hh, setRole, stepPoll, e1, firstPoll, hw, pollBody, hc]
+  · simp [deliver, setRole, e2, List.set_set]
+
+/-- the whole `child_wait` program on a fresh descriptor -/
+example : ∃ s, run (init false) [.opStart 0, .drop 1, .take 0, .poll 0] = some s ∧
+    s.actors[0]? = some (.closer .doneSome) ∧ s.delivered = 1 ∧ s.released = 1 := ⟨_, rfl, rfl, rfl, rfl⟩
 
 end Compio.Props.C06
